@@ -549,6 +549,10 @@ MANIFEST = dict(
     '1e7, Ts in [1e-9,1], n<=1e5 on the arguments the real code passes to '
     'np.arange.',
     note='reals for the chunk law (rounding outside); cos/sin/exp as '
-    'uninterpreted functions; numpy arange length rule trusted; RNG stub',
+    'uninterpreted functions; numpy arange length rule trusted; RNG stub'
+    ' Concrete data-representation / scale / boundary probes of the real'
+    ' code (dtype, container and memory-layout variants, argument'
+    ' immutability, magnitudes) accompany the symbolic runs; they are'
+    ' differential runs, not solver verdicts.',
     technique='symbolic execution of real code on object arrays + z3 NRA/UF; '
     'argument capture + cvc5 QF_FP for the float sample count')
